@@ -31,6 +31,7 @@ import (
 	"verif/harness/core"
 	_ "verif/harness/fam/engine"
 	_ "verif/harness/fam/inbox"
+	_ "verif/harness/fam/remote"
 	_ "verif/harness/fam/ring"
 	"verif/sim/simrt"
 )
